@@ -1263,6 +1263,50 @@ func (r *vRunner) history(hist int, nOps int) {
 		quiet++
 		r.exec(vOp{Op: "poll", Quiet: quiet}, nil)
 	}
+	// ...and then a DEFECTIVE / hostile server: next to what it really lists it hands out a forgery for a subject that
+	// never registered: typed as a retraction but carrying credentials, a retraction naming somebody else's entry, a
+	// retraction / registration whose signature the client's verifier rejects. The client stores it (it stores before it
+	// verifies) but must never flag it validated nor return it from Search — not at once, not by the background validate().
+	// (last ops of the history: the forged row stays in the replica, which a later convergence check would report)
+	if r.w.server.store != nil && rng.Intn(2) == 0 {
+		var svc serviceRecord
+		r.w.server.store.db.Find(&svc, "id = ?", vSvc)
+		live := true
+		for _, row := range r.serverRows() {
+			if row.PresentationExpiration <= vNow()+5 {
+				live = false
+			}
+		}
+		if svc.Seed != "" && live {
+			rec := r.validRecipe("did:example:s6")
+			rec.VerifyC = true
+			class := ""
+			switch rng.Intn(5) {
+			case 0:
+				class = "forged:retraction-with-credentials"
+				rec.Retraction, rec.RetractJTI = true, to.Ptr(rec.Subject+"#"+rec.Label) // names itself: only the credentials are wrong
+			case 1:
+				class = "forged:retraction-with-credentials-unknown-jti"
+				rec.Retraction, rec.RetractJTI = true, to.Ptr(rec.Subject+"#nothing")
+			case 2:
+				class = "forged:retraction-of-another-subjects-entry"
+				rec.Retraction, rec.Creds = true, []string{}
+				rec.RetractJTI = to.Ptr("did:example:s1#nothing")
+				if rows := r.serverRows(); len(rows) > 0 {
+					rec.RetractJTI = to.Ptr(rows[rng.Intn(len(rows))].PresentationID)
+				}
+			case 3:
+				class = "forged:retraction-bad-signature"
+				rec.Retraction, rec.Creds, rec.VerifyC = true, []string{}, false
+				rec.RetractJTI = to.Ptr(rec.Subject + "#" + rec.Label)
+			default:
+				class = "forged:registration-bad-signature"
+				rec.VerifyC = false
+			}
+			r.exec(vOp{Op: "pollinject", Recipe: &rec, Class: class}, nil)
+			r.exec(vOp{Op: "validate", Class: "validate-after-forgery"}, nil)
+		}
+	}
 }
 
 // sleepHistory lets presentations expire on the real clock: short-lived ones (exp = t0+3) are registered in a fast first
